@@ -344,13 +344,11 @@ Definition simple_root (name : string) : selection :=
   SField None name [] [] [SField None "value" [] [mkDir "output" []] []].
 Definition simple_op : operation := mkOp OpQuery [] [] [simple_root "Four"].
 
-(* F1: a document with exactly two operations panics in try_get_query_root *)
+(* F1: a document with exactly two operations used to panic in try_get_query_root *)
 Definition f1_doc : document := mkDoc (OpsMultiple [("A", simple_op); ("B", simple_op)]) [].
-Lemma f1_doc_panics : parse_doc f1_doc = Panic site_nth.
-Proof. vm_compute. reflexivity. Qed.
-
-Theorem parse_document_total_refuted : exists d, forall r, parse_doc d <> Ok r.
-Proof. exists f1_doc. intros r. rewrite f1_doc_panics. discriminate. Qed.
+(* since the repair of F1 (`nth(2)` -> `nth(1)`) it is an ordinary error *)
+Lemma f1_doc_is_error : exists e, parse_doc f1_doc = Ok (inl e).
+Proof. vm_compute. eexists. reflexivity. Qed.
 
 (* three operations are an ordinary error *)
 Lemma three_ops_error :
